@@ -30,7 +30,7 @@ def run(run):
     sets.append(("corpus-F3", spec.children(spec.encode(0, 0, ())) + [spec.encode(0, f, ()) for f in range(1, 12)]))
     sets.append(("whole-sphere-r2", [c for c in gen.all_cells(2)]))
     sets.append(("whole-sphere-mixed", [c for f in range(6) for c in spec.children(spec.encode(0, f, ()))] + [spec.encode(0, f, ()) for f in range(6, 12)]))
-    n = 150 if quick else 5000
+    n = run.n(150, 5000)
     for _ in range(n):
         m = rng.random()
         if m < 0.45:
